@@ -26,7 +26,7 @@ def r1_weights(ctx):
                 continue
             cfi = c01.cfi_of(p)
             ls = [e.data[0] for e in p.events if e.kind == "call" and callee(e.data[0]) == LS]
-            tag = ",".join("%s" % v for _c, v in p.conds) or "-"
+            tag = Q.tags(p.conds) or "-"
             if cfi is None or len(ls) != 1:
                 ctx.add("R1", "%s|structure|%s" % (qn, tag), "UNDECIDED", "expected validation and one solve", fn=qn)
                 continue
@@ -105,7 +105,7 @@ def r4_check_fit_input(ctx):
             if c[0] == "call" and callee(c) == "builtins.any" and any(x[0] == "cmp" and x[1] in ("isnot", "is") for x in walk(c)) and ("param", "weights") in Q.leaves(c):
                 hasw = val
         unpack = lookup(p.decided, ("param", "unpack"))
-        tag = "%s,%s,%s" % ("weights" if hasw else "noweights", "unpack" if unpack else "tuples", ",".join("%s" % x for _c, x in p.conds[-2:]))
+        tag = "%s,%s,%s" % ("weights" if hasw else "noweights", "unpack" if unpack else "tuples", Q.tags(p.conds[-2:]))
         if v[0] != "tuple" or len(v[1]) != 3:
             ctx.add("R4", "%s|returns-three|%s" % (qn, tag), "VIOLATED" if v[0] == "tuple" else "UNDECIDED", "check_fit_input returns %s" % show(v)[:60], fn=qn)
             continue
